@@ -181,7 +181,7 @@ def observe(ctx, text, engine):
     elif engine != "numpy" and not _traced[0]:
         path = "normal"
     elif engine == "numpy":
-        if numpy_returned and not normal_started and _gen_calls == ["returned"]:
+        if numpy_returned and not normal_started and "raised" not in _gen_calls:
             path = "fast"
         elif numpy_started and normal_started:
             path = "fallback"
